@@ -413,6 +413,10 @@ func hostOf(class string, base string) hostForm {
 		return hostForm{"svc." + apexZone[:2] + " " + apexZone[2:], "svc." + apexZone}
 	case "acmespaced":
 		return hostForm{"svc." + acmeZone[:3] + "\t" + acmeZone[3:], "svc." + acmeZone}
+	case "apexself":
+		return hostForm{apexZone, apexZone}
+	case "acmeself":
+		return hostForm{acmeZone, acmeZone}
 	case "unicode":
 		puny, err := idna.ToASCII("b\u00fccher." + base)
 		if err != nil {
